@@ -5,7 +5,8 @@
 From Coq Require Import ZArith List.
 From NTT Require Import Functors Algebra Inverse NTTInst NTTClosed NTTTables Shards Permut Tables FlatTable Fused GenEq.
 From NTT.gen Require Gen GenLoop.
-From NTT Require Structural GenLoopEq ScalarOps GenPrepEq InitSpec GenInitEq PrepSpec.
+From NTT Require Structural GenLoopEq ScalarOps GenPrepEq InitSpec GenInitEq PrepSpec PermSem PermSrc InvNttSrc.
+From NTT.gen Require GenPerm.
 From NTT.gen Require Import Params.
 Local Open Scope Z_scope.
 
@@ -196,3 +197,37 @@ Theorem C02_source_initialize_statement : forall bits K rowok run P roots invk, 
                                    nth (c * (n * 2) + n + i) iom 0 = nth i (sh (FlatTable.flat p (S k0) (NTTInst.invomega p g K k0))) 0)).
 Proof. intros. unfold GenInitEq.init_statement. split; intros H; exact H. Qed.
 Print Assumptions C02_source_initialize_statement.
+
+(* THE BIT-REVERSAL PERMUTATION OF THE SOURCE (include/nfl/permut.hpp), translated by tools/cxxperm2coq.py on every run into gen/GenPerm.v:
+   for every degree 2..1024 the list of assignments y[r] = x[I] the template recursion r_set<0,1,degree> executes, in execution order (walked
+   through the instantiated specialisations; r = r_loop<1,degree,0,I>::value evaluated by following the initialisers); for larger degrees
+   the constructor of permut_compute (the table: a for loop around the shift loop  r = (r << 1) | (ii & 1); ii >>= 1; h = h << 1, in a
+   16- or 32-bit index type with its integer promotions) and the copy loop y[i] = x[P(i)]; the dispatch between them and the index type
+   probed by static_asserts.  For EVERY degree 2^k, k = 1..30, any source of at least 2^k words and any destination of at least 2^k words,
+   all accesses are in bounds and the destination's first 2^k words become the model's BR (Inverse.v) of the source, the rest is untouched. *)
+Theorem C02_source_permut : forall k0 fuel (x y : list Z), let n := (2 ^ S k0)%nat in (S k0 <= 30)%nat -> (S k0 < fuel)%nat -> (n <= length x)%nat -> (n <= length y)%nat ->
+  GenPerm.gen_permut fuel (Z.of_nat n) y 0 x 0 = Some (BR k0 x ++ skipn n y).
+Proof. exact PermSrc.permut_ok. Qed.
+Print Assumptions C02_source_permut.
+(* core::inv_ntt OF THE SOURCE (the nine translations gen_inv_ntt_<build>_uN: copy into the local array y[degree+1], core::ntt on it, copy
+   back) has the shape below by reflexivity, and therefore returns BR (F (BR x)) where F is the action of the translated core::ntt on the first
+   `degree` words of the scratch array.  PARTIAL: the scratch array has degree+1 words while C05_source_loops_all_builds is stated for an array
+   of exactly `degree` words; that the translated core::ntt leaves the extra word alone (hypothesis NTTpad) is not derived. *)
+Theorem C02_source_inv_ntt_partial : forall (ntt : Z -> list Z -> Z -> list Z -> Z -> list Z -> Z -> Z -> option (list Z * Z * Z * Z * bool))
+  (inv : nat -> Z -> list Z -> Z -> list Z -> Z -> list Z -> Z -> Z -> Z -> list Z -> option (list Z * list Z * Z * Z * bool)), (forall fuel degree x x_o w wo w' wo' invK p y, inv fuel degree x x_o w wo w' wo' invK p y =
+    (if (degree =? 1) then Some ((x, y, wo, wo'), true) else (CxxSem.bind (GenPerm.gen_permut fuel degree y 0 x x_o) (fun y => (CxxSem.bind (ntt degree y 0 w wo w' wo' p) (fun '(y, _, _, _, ret_) =>
+      (CxxSem.bind (GenPerm.gen_permut fuel degree x x_o y 0) (fun x => Some ((x, y, wo, wo'), true))))))))) ->
+  forall k0 fuel W W' p invK F, let n := (2 ^ S k0)%nat in (S k0 <= 30)%nat -> (S k0 < fuel)%nat -> (forall v, length v = n -> length (F v) = n) ->
+  (forall v pad, length v = n -> length pad = 1%nat -> exists a b c, ntt (Z.of_nat n) (v ++ pad) 0 W 0 W' 0 p = Some ((F v ++ pad, a, b, c), true)) ->
+  forall x y0, length x = n -> length y0 = S n ->
+  inv fuel (Z.of_nat n) x 0 W 0 W' 0 invK p y0 = Some ((BR k0 (F (BR k0 x)), F (BR k0 x) ++ skipn n y0, 0, 0), true).
+Proof. exact InvNttSrc.inv_ntt_ok. Qed.
+Print Assumptions C02_source_inv_ntt_partial.
+Theorem C02_source_inv_ntt_shapes :
+  (forall fuel degree x x_o w wo w' wo' invK p y, GenLoop.gen_inv_ntt_serial_u32 fuel degree x x_o w wo w' wo' invK p y = (if (degree =? 1) then Some ((x, y, wo, wo'), true) else (CxxSem.bind (GenPerm.gen_permut fuel degree y 0 x x_o) (fun y => (CxxSem.bind (GenLoop.gen_ntt_serial_u32 degree y 0 w wo w' wo' p) (fun '(y, _, _, _, ret_) => (CxxSem.bind (GenPerm.gen_permut fuel degree x x_o y 0) (fun x => Some ((x, y, wo, wo'), true))))))))) /\
+  (forall fuel degree x x_o w wo w' wo' invK p y, GenLoop.gen_inv_ntt_sse_u32 fuel degree x x_o w wo w' wo' invK p y = (if (degree =? 1) then Some ((x, y, wo, wo'), true) else (CxxSem.bind (GenPerm.gen_permut fuel degree y 0 x x_o) (fun y => (CxxSem.bind (GenLoop.gen_ntt_sse_u32 degree y 0 w wo w' wo' p) (fun '(y, _, _, _, ret_) => (CxxSem.bind (GenPerm.gen_permut fuel degree x x_o y 0) (fun x => Some ((x, y, wo, wo'), true))))))))) /\
+  (forall fuel degree x x_o w wo w' wo' invK p y, GenLoop.gen_inv_ntt_avx2_u32 fuel degree x x_o w wo w' wo' invK p y = (if (degree =? 1) then Some ((x, y, wo, wo'), true) else (CxxSem.bind (GenPerm.gen_permut fuel degree y 0 x x_o) (fun y => (CxxSem.bind (GenLoop.gen_ntt_avx2_u32 degree y 0 w wo w' wo' p) (fun '(y, _, _, _, ret_) => (CxxSem.bind (GenPerm.gen_permut fuel degree x x_o y 0) (fun x => Some ((x, y, wo, wo'), true))))))))) /\
+  (forall fuel degree x x_o w wo w' wo' invK p y, GenLoop.gen_inv_ntt_serial_u16 fuel degree x x_o w wo w' wo' invK p y = (if (degree =? 1) then Some ((x, y, wo, wo'), true) else (CxxSem.bind (GenPerm.gen_permut fuel degree y 0 x x_o) (fun y => (CxxSem.bind (GenLoop.gen_ntt_serial_u16 degree y 0 w wo w' wo' p) (fun '(y, _, _, _, ret_) => (CxxSem.bind (GenPerm.gen_permut fuel degree x x_o y 0) (fun x => Some ((x, y, wo, wo'), true))))))))) /\
+  (forall fuel degree x x_o w wo w' wo' invK p y, GenLoop.gen_inv_ntt_serial_u64 fuel degree x x_o w wo w' wo' invK p y = (if (degree =? 1) then Some ((x, y, wo, wo'), true) else (CxxSem.bind (GenPerm.gen_permut fuel degree y 0 x x_o) (fun y => (CxxSem.bind (GenLoop.gen_ntt_serial_u64 degree y 0 w wo w' wo' p) (fun '(y, _, _, _, ret_) => (CxxSem.bind (GenPerm.gen_permut fuel degree x x_o y 0) (fun x => Some ((x, y, wo, wo'), true))))))))).
+Proof. exact (conj InvNttSrc.inv_shape_serial_u32 (conj InvNttSrc.inv_shape_sse_u32 (conj InvNttSrc.inv_shape_avx2_u32 (conj InvNttSrc.inv_shape_serial_u16 InvNttSrc.inv_shape_serial_u64)))). Qed.
+Print Assumptions C02_source_inv_ntt_shapes.
